@@ -65,7 +65,93 @@ type c17Snap struct {
 	run func()
 }
 
+// c17DMAOff: with the LCD on, at every cycle of the line, the guest starts an OAM DMA and at once (before the
+// first byte is copied) moves or dereferences a pointer into FE00-FEFF; the LCD is then switched off and the
+// CPU only executes NOPs until well after the transfer. The transfer rewrites all 160 bytes after the pointer
+// activity, so whatever the mode-2 bug may have done while the LCD was on, OAM must end up equal to the DMA
+// source and stay so: anything else altered OAM with the LCD off.
+func c17DMAOff(l *explore.Local, c c17Case) *explore.Fail {
+	m := machine.New(machine.ROMOnly(), machine.Opts{})
+	for i := 0; i < 160; i++ {
+		m.Map.Write(0xc100+uint16(i), uint8(i*7+i/8*0x21+0x13))
+		m.Map.Write(0xc200+uint16(i), uint8(i*11+i/8*0x35+0x07))
+	}
+	m.Map.Write(0xff46, 0xc1)
+	for i := 0; i < 170; i++ {
+		m.Hardware()
+	}
+	target := 17556 + c.Line*114 - 2 + c.From
+	for pos := 170; pos < target; pos++ {
+		m.Hardware()
+	}
+	ptrs := c17Ptrs
+	if c.Ptr != 0 {
+		ptrs = []uint16{c.Ptr}
+	}
+	for tick := c.From; tick < c.To; tick++ {
+		if c.Tick == 0 || c.Tick == tick {
+			sp, so, si, st, sc, sm, sa := *m.P, *m.OAM, *m.I, *m.T, *m.CPU, *m.Map, *m.A
+			for _, ptr := range ptrs {
+				for oi := range c17Ops {
+					if c.Prog != nil && c.Prog[0] != oi {
+						continue
+					}
+					*m.P, *m.OAM, *m.I, *m.T, *m.CPU, *m.Map, *m.A = sp, so, si, st, sc, sm, sa
+					op := append([]uint8(nil), c17Ops[oi]...)
+					if len(op) == 3 {
+						op[1], op[2] = uint8(ptr), uint8(ptr>>8)
+					}
+					code := append([]uint8{0x3e, 0xc2, 0xe0, 0x46}, op...)
+					for i := 0; i < 260; i++ {
+						b := uint8(0)
+						if i < len(code) {
+							b = code[i]
+						}
+						m.Map.Write(0xc000+uint16(i), b)
+					}
+					regs := cpu.VRegs{A: 0x5a, B: uint8(ptr >> 8), C: uint8(ptr), D: uint8(ptr >> 8), E: uint8(ptr), H: uint8(ptr >> 8), L: uint8(ptr), SP: ptr, PC: 0xc000}
+					m.CPU.VSet(regs)
+					m.I.Disable()
+					// LD A,C2 (2 cycles), LDH (46),A (3), the pointer instruction
+					for k := 0; k < 5; k++ {
+						m.Cycle()
+					}
+					for k := 0; k < 12; k++ {
+						m.Cycle()
+						if m.CPU.VAtBoundary() {
+							break
+						}
+					}
+					m.Map.Write(0xff40, m.Map.Read(0xff40)&0x7f)
+					for k := 0; k < 200; k++ {
+						m.Cycle()
+					}
+					l.Trans(1)
+					// stores through the pointer land in OAM only while it is writable; the transfer overwrites them
+					for i := 0; i < 160; i++ {
+						want := uint8(i*11 + i/8*0x35 + 0x07)
+						if got := m.Map.Read(0xfe00 + uint16(i)); got != want {
+							f := explore.Failf("OAM altered without a CPU write or DMA: LCD off (after a DMA that was started with the LCD on)",
+								"line %d tick %d, pointer %04x, program % x, LCD switched off after it: OAM[%d]=%02x after the transfer, DMA source byte %02x", c.Line, tick, ptr, code, i, got, want)
+							f.Case = c17Case{Mode: "dmaoff", Line: c.Line, From: c.From, To: c.To, Tick: tick, Prog: []int{oi}, Ptr: ptr}
+							return f
+						}
+					}
+					l.Eval(1)
+				}
+			}
+			*m.P, *m.OAM, *m.I, *m.T, *m.CPU, *m.Map, *m.A = sp, so, si, st, sc, sm, sa
+			l.Outcome(uint64(sp.ReadSTAT()&3) | uint64(c.Line)<<8 | 0xd<<20)
+		}
+		m.Hardware()
+	}
+	return nil
+}
+
 func c17Check(l *explore.Local, _ struct{}, c c17Case) *explore.Fail {
+	if c.Mode == "dmaoff" {
+		return c17DMAOff(l, c)
+	}
 	m := machine.New(machine.ROMOnly(), machine.Opts{})
 	// fill OAM through a DMA transfer (no CPU/OAM-bug interaction): every row distinct
 	for i := 0; i < 160; i++ {
@@ -243,7 +329,7 @@ func init() {
 		if c.Thorough() {
 			n = 2
 		}
-		explore.Product(c.R, "oam-integrity", explore.PartOpt{Bound: fmt.Sprintf("programs of length <= %d (one extra block of length %d on line 1)", n, n+1), Domain: "switch-off at every cycle of lines 0,1,143,144,153; off-on-off; LCD on outside mode 2; switch-off at every cycle of lines 1 and 150 followed by one of 16 register writes (LY, STAT, LYC, LCDC with bit 7 clear, scroll, window, palettes, IF, IE)"},
+		explore.Product(c.R, "oam-integrity", explore.PartOpt{Bound: fmt.Sprintf("programs of length <= %d (one extra block of length %d on line 1)", n, n+1), Domain: "switch-off at every cycle of lines 0,1,143,144,153; off-on-off; LCD on outside mode 2; switch-off at every cycle of lines 1 and 150 followed by one of 16 register writes (LY, STAT, LYC, LCDC with bit 7 clear, scroll, window, palettes, IF, IE); DMA started + pointer instruction at every cycle of line 1 with the LCD on, then LCD off and NOPs until after the transfer"},
 			func(yield func(c17Case) bool) {
 				for _, line := range []int{0, 1, 143, 144, 153} {
 					for from := 0; from < 114; from += 6 {
@@ -256,6 +342,17 @@ func init() {
 							if !yield(c17Case{Mode: "offonoff", Line: line, From: from, To: from + 6, Len: 1, OnFor: onFor}) {
 								return
 							}
+						}
+					}
+				}
+				// a DMA started and a pointer moved at every cycle of a visible line with the LCD on, then the LCD switched off
+				for from := 0; from < 114; from += 6 {
+					if !yield(c17Case{Mode: "dmaoff", Line: 1, From: from, To: from + 6, Len: 1}) {
+						return
+					}
+					if c.Thorough() {
+						if !yield(c17Case{Mode: "dmaoff", Line: 144, From: from, To: from + 6, Len: 1}) {
+							return
 						}
 					}
 				}
